@@ -59,7 +59,7 @@ def classify(a, v, info):
         return ('wres', v)
     if re.match(r'^variant\(std::collections::HashMap::<[^()]*>::get\(', n):
         return ('lookup', v)
-    if re.match(r"^variant\(<[^()]*as std::iter::Iterator>::next\(", n):
+    if re.match(r"^variant\(<[^()]*as std::iter::Iterator>::next(\(|#u?\d+\)$)", n):
         return ('next', v)
     if 'FlexiLogger::primary_enabled#' in n:
         return ('enabled', v)
